@@ -546,7 +546,7 @@ class Play:
                 else:
                     coro.close()
                     raise HarnessError("scenario body suspended outside an event loop")
-            gc.collect()
+            gc.collect(0)  # (un-awaited coroutine objects die by reference count; a full collection per case is O(heap))
         bad = [x for x in w if issubclass(x.category, RuntimeWarning) and "never awaited" in str(x.message)]
         if bad:
             raise Fail("never-awaited", str(bad[0].message))
